@@ -186,7 +186,7 @@ def plain_part(R, n):
                                     {"http": e, "local": le})
             # scripted failures on a plain fetch
             for beh in [("status", 404), ("status", 500), ("status", 503), ("status", 403), "drop", ("status", 204),
-                        "cut-body", "cut-chunked", "bad-gzip"]:
+                        "cut-body", "cut-chunked", "bad-gzip", ("status-json", 503), ("status-json", 404)]:
                 k, co = D["chunks"][0]
                 site.reset([beh])
                 h = run_impl(lambda: acc.fetch_chunk(k, tuple(co)))
@@ -198,6 +198,11 @@ def plain_part(R, n):
                 if beh != ("status", 204) and h != ["AccessErr"]:
                     R.violation("HTTP / connection failure on a plain dataset not reported as a data-access error",
                                 case, {"impl": h12._short(h)})
+                site.reset()
+                again = run_impl(lambda: acc.fetch_chunk(k, tuple(co)))
+                if again != run_impl(lambda: local.fetch_chunk(k, tuple(co))):
+                    R.violation("after a failed fetch, the next fetch of the same chunk through the same accessor "
+                                "does not return the chunk", case, {"second_fetch": h12._short(again)})
                 site.reset([beh])
                 e = run_impl(lambda: acc.file_exists("info"))
                 reqs.append(("http_exists", [sc, wire_script([beh]), tree, b(acc.base_url), b"info"]))
@@ -219,6 +224,16 @@ def plain_part(R, n):
                     if beh != ("status", 204) and hf != ["AccessErr"]:
                         R.violation("HTTP / connection failure while fetching a file of a plain dataset not reported "
                                     "as a data-access error", cf, {"impl": h12._short(hf)})
+                    # the SAME accessor object, the server healthy again: the next fetch of that path
+                    # returns the file (nothing of the failed reply may survive in the object)
+                    site.reset()
+                    again = run_impl(lambda: acc.fetch_file(nm))
+                    want_again = run_impl(lambda: local.fetch_file(nm))
+                    R.count(f"plain:recovery-after:{beh if isinstance(beh, str) else str(beh[0]) + str(beh[1])}:{again[0]}")
+                    if again != want_again:
+                        R.violation("after a failed fetch, the next fetch of the same path through the same accessor "
+                                    "does not return the file", cf,
+                                    {"second_fetch": h12._short(again), "local": h12._short(want_again)})
     rep = R.model.batch(reqs)
     for (kind, case, impl, log, origin), m in zip(pend, rep):
         if kind == "dispatch":
@@ -335,6 +350,25 @@ def sharded_part(R, n):
         legacy = rng.random() < 0.4
         if legacy:
             split_legacy(os.path.join(ds, "1mm"), hl)
+        # every third non-legacy dataset also carries a STALE legacy .index/.data pair (an older
+        # generation with other bytes) beside each .shard: a failure on the .shard object other than
+        # "404 not found" must never make the reader fall back to it
+        stale = (not legacy) and i % 3 == 0
+        if stale:
+            import atexit
+            import shutil
+            old = os.path.join(R.tmp, f"shsite{i}-old")
+            w0 = ShardedFileAccessor(old)
+            w0.store_file("info", json.dumps(info).encode(), mime_type="application/json")
+            for c in stored:
+                w0.store_chunk(bytes(255 - x for x in content[tuple(c)]) + b"stale", "1mm", tuple(c))
+            with contextlib.redirect_stdout(io.StringIO()):
+                w0.close()
+            atexit.unregister(w0.close)
+            split_legacy(os.path.join(old, "1mm"), hl)
+            for fn in os.listdir(os.path.join(old, "1mm")):
+                shutil.copy(os.path.join(old, "1mm", fn), os.path.join(ds, "1mm", fn))
+            shutil.rmtree(old)
         spec = sb.ShardSpec(triple[1], triple[2], preshift_bits=triple[0])
         vspec = sb.ShardVolumeSpec([64, 64, 64], size)
         rw = sb.CMCReadWrite(spec)
@@ -346,7 +380,7 @@ def sharded_part(R, n):
             spelling = rng.choice(["/ds", "/ds/"])
             url = ("precomputed://" if rng.random() < 0.3 else "") + origin + spelling
             case0 = {"dataset": "sharded", "triple": list(triple), "data_encoding": enc, "index_encoding": idx_enc,
-                     "legacy": legacy, "size": size, "url": spelling}
+                     "legacy": legacy, "stale_legacy_pair": stale, "size": size, "url": spelling}
             site.reset()
             res = run_impl(lambda: accessor.get_accessor_for_url(url))
             ib = open(os.path.join(ds, "info"), "rb").read()
@@ -358,7 +392,7 @@ def sharded_part(R, n):
             if res[0] != "ok" or not isinstance(res[1], ShardedHttpAccessor):
                 R.violation("sharded dataset not dispatched to the sharded HTTP reader", case0, {"impl": str(res)[:200]})
                 continue
-            R.count(f"sharded:{'legacy' if legacy else 'shard'}:{enc}:{idx_enc}")
+            R.count(f"sharded:{'legacy' if legacy else 'shard+stale-pair' if stale else 'shard'}:{enc}:{idx_enc}")
             targets = rng.sample(allc, min(len(allc), 3))
             for co in targets:
                 local = ShardedFileAccessor(ds)
@@ -392,7 +426,18 @@ def sharded_part(R, n):
                 behs = [("status", 500), ("status", 404), ("status", 503), "drop", "short", "long", "ignore-range",
                         ("status", 204), "cut-body", "cut-chunked", "bad-gzip"]
                 for k in range(nreq):
-                    for beh in rng.sample(behs, 4):
+                    chosen = rng.sample(behs, 4)
+                    if stale:
+                        # a 404 on the .shard object legitimately means "look for the legacy pair"; a 204
+                        # (a non-error status other than 200) is read by the code as "not there" as well:
+                        # neither is an HTTP failure in the sense of the property, so with a stale pair on
+                        # the server the fallback is not flagged (and the local-locate oracle of the model
+                        # comparison, taken from the .shard, would not apply to it)
+                        chosen = [x for x in chosen if x not in (("status", 404), ("status", 204))]
+                        if k == 0:
+                            # refusals of the .shard probe that are NOT "not found" (stratified, always run)
+                            chosen += [("status", 403), ("status", 410), ("status", 401)]
+                    for beh in chosen:
                         script = ["normal"] * k + [beh]
                         acc2 = accessor.get_accessor_for_url(url)
                         site.reset(script)
